@@ -154,6 +154,26 @@ func c10LargeOne(r *core.Rec, lc c10LargeCase) {
 		wantBool("all", cr.name, "%c.all("+cr.src+")", len(want) == n)
 		wantInt("where.count", "%c.where("+cr.src+").count()", len(want))
 	}
+	// a criterion function behind where(): the receiver is the filtered collection, whatever the two functions are
+	for _, p := range crits {
+		for _, q := range crits {
+			var both []c10Item
+			nP := 0
+			for k, it := range c {
+				if p.f(k, it) {
+					nP++
+					if q.f(k, it) {
+						both = append(both, it)
+					}
+				}
+			}
+			arg := p.name + "," + q.name
+			wantBool("where(p).exists(q)", arg, "%c.where("+p.src+").exists("+q.src+")", len(both) > 0)
+			wantBool("where(p).all(q)", arg, "%c.where("+p.src+").all("+q.src+")", len(both) == nP)
+			wantSeq("where(p).where(q)", arg, "%c.where("+p.src+").where("+q.src+")", both)
+			wantInt("where(p).select(q).count", "%c.where("+p.src+").select("+q.src+").count()", nP)
+		}
+	}
 	// select: one result per item, in order (the item itself), and a two-item projection concatenated in order
 	wantSeq("select", "$this", "%c.select($this)", c)
 	if res := run("%c.select(%two).count()"); !(res.OK() && len(res.Coll) == 1 && res.Coll[0] == system.Integer(2*n)) {
